@@ -52,8 +52,8 @@ PLANS = {
         "floor": 2000,
     },
     "C12": {
-        "quick": [sess("remount", "C12", 1200, 40, args={"shadow": 1, "statusbits": 1})],
-        "thorough": [sess("remount", "C12", 5000, 300, args={"shadow": 1, "statusbits": 1})],
+        "quick": [sess("remount", "C12", 1200, 35, args={"shadow": 1, "statusbits": 1}), job("c12fault")],
+        "thorough": [sess("remount", "C12", 5000, 300, args={"shadow": 1, "statusbits": 1}), job("c12fault"), sess("mixed", "C12", 2000, 120, args={"builder": 1, "nolibwalk": 1})],
         "floor": 2000,
     },
 }
@@ -75,8 +75,8 @@ PLANS.update({
         "floor": 20000,
     },
     "C14": {
-        "quick": [job("c14", args={"sessions": 400, "time": 40})],
-        "thorough": [job("c14", args={"sessions": 6000, "time": 480}, timeout=3600)],
+        "quick": [job("c14", args={"sessions": 400, "time": 40}), job("c14fault")],
+        "thorough": [job("c14", args={"sessions": 6000, "time": 480}, timeout=3600), job("c14fault")],
         "floor": 20000,
     },
     "C08": {
